@@ -70,10 +70,15 @@ CHECKS = {
          "Seeded search over learning configurations (2-4 classes, split percentage, even/uneven split, shuffle via the seeded global PRNG, standard or dimension-wise learning) and call histories. Oracle: positions are re-scaled by the harness with the range and factor reported at learning time; returned classes must be a maximiser of the learned per-class densities for exactly the in-range (and, for test_data, labelled) samples; out-of-range samples are absent and all-out data is refused; summaries (wrong, total, percentage) of test_data and evaluate() are recomputed; classes recorded for earlier data are a stable prefix and re-evaluating earlier data gives the same classes; a second learning call is refused.",
          "Trusted: the density values returned by the learned combination objects (their correctness is C16/C17's subject), harness re-scaling. Stubs: clock; global PRNG seeded by the run.",
          "DESIGN.md section 5, C19"),
+ "C17": ("de_reuse_sim", "exploration",
+         "deterministic simulation: twin executions of the same seeded refinement history with the caches on / off and with the size threshold moved through the guarded hook so that both implementations run on the same grids",
+         "Seeded search over data sets (on grid lines / boundary, class labels), lambda, mass lumping, analytic (rarely numeric) entries and benefit schedules of the real dimension-wise loop. For every schedule five executions are compared after every evaluation (scheme, surpluses per component grid, interpolated densities): reuse off vs on (default threshold; a share of configurations reaches component grids beyond 200 points), small-grid vs large-grid implementation everywhere (threshold moved by SPARSESPACE_VERIF_DE_THRESHOLD), and reuse on with the right-hand-side reuse path forced. The broken right-hand-side reuse path is a known finding keyed by 'path active'; the matrix-entry cache and the implementation equivalence stay fully armed.",
+         "Trusted: the reuse-off run as reference (its correctness is C16's subject, not applicable here). Bound 1e-8 relative for analytic entries, 2e-2 for numeric entries (calibrated quadrature accuracy).",
+         "DESIGN.md section 5, C17"),
 }
 
 _P = "claimed by DESIGN.md but the check is not built yet in this tree; listed here until its engine is registered"
-PENDING = {k: _P for k in ["C15", "C17"]}
+PENDING = {k: _P for k in ["C15"]}
 
 def main():
     checks = []
@@ -97,9 +102,9 @@ def main():
     m = {
         "version": 1,
         "setup_cmd": "./setup.sh",
-        "hooks": {"guard": "SPARSESPACE_VERIF", "enable": "no hooks in /repo are needed so far: all seams (clock, PRNGs, persistence, environment callbacks, observers) are installed from the harness at run time; checks import sparseSpACE from /repo's working tree (or VERIF_REPO)",
+        "hooks": {"guard": "SPARSESPACE_VERIF", "enable": "checks import sparseSpACE from /repo's working tree (or VERIF_REPO); all seams (clock, PRNGs, persistence, environment callbacks, observers) are installed from the harness at run time. One guarded knob exists in /repo: with SPARSESPACE_VERIF=1 the density-estimation size threshold (literal 200 in GridOperation.py) is read from SPARSESPACE_VERIF_DE_THRESHOLD; the C17 check sets both variables in-process for the executions that need it and clears them afterwards",
                   "baseline_off_cmd": "cd /repo && /venv/bin/python -m pytest -ra -q -p no:cacheprovider --timeout=900 --continue-on-collection-errors",
-                  "source_commits": [], "add_only": True},
+                  "source_commits": ["9788798"], "add_only": True},
         "engines": [{"name": e, "path": "engines/%s.py" % e, "serves_properties": sorted(p),
                      "kind_free_text": "deterministic simulation engine (seeded schedules, fault injection, invariant monitors)"} for e, p in sorted(engines.items())],
         "checks": checks,
